@@ -15,21 +15,29 @@ open Bifrost Bifrost.SigC
 `Send` call that is still running and knows it transmitted it, or is being cancelled — so the
 slot is always eventually freed and later sends are not blocked forever. -/
 theorem no_orphan_out (s : State) (h : Reachable s) : noOrphanOut s = true := by
-  sorry
+  exact SigClient.noOrphanOut_of_inv (SigClient.inv_of_reachable h)
 
 /-- Progress 1: with the session open and the outgoing slot free, a running `Send` takes the slot. -/
 theorem send_takes_slot (s : State) (c : SendCall) (e : Nat)
     (hc : getSend s c.id = some c) (hrun : c.result = none) (ho : s.open_ = some e) (hfree : s.out = none)
     (hid : c.msg.seqno = c.id) :
     (sendStep s c.id).out = some c.msg ∧ ∃ c', getSend (sendStep s c.id) c.id = some c' ∧ c'.txed = true := by
-  sorry
+  have _ := hid
+  obtain ⟨cid, cmsg, ctx, cep, cres⟩ := c
+  obtain ⟨open_, out, outSent, outAcked, outCancel, recv, recvProcessed, sends, delivered, emitted,
+    accepted, ackedLog, failed⟩ := s
+  simp only at hrun ho hfree hc
+  subst hrun ho hfree
+  simp only [SigClient.getSend_def] at hc
+  by_cases hep : cep = some e <;> cases ctx <;>
+    simp [sendStep, hc, hep, SigClient.getSend_def, SigClient.setSend_def, SigClient.findL_setL]
 
 /-- Progress 2: a pending, not yet transmitted message is transmitted by the next main-loop
 iteration, stamped with the current epoch. -/
 theorem loop_transmits (s : State) (o : Msg) (e : Nat)
     (ho : s.open_ = some e) (hout : s.out = some o) (hns : s.outSent = false) (hnc : s.outCancel = false) :
     (txLoop s).2 = some (.send e o) ∧ (txLoop s).1.outSent = true := by
-  sorry
+  simp [txLoop, ho, hout, hns, hnc]
 
 /-- Progress 3: once the ack naming its message arrived, the `Send` returns success and frees the slot. -/
 theorem ack_completes (s : State) (c : SendCall) (e : Nat)
@@ -37,7 +45,13 @@ theorem ack_completes (s : State) (c : SendCall) (e : Nat)
     (hep : c.sessEpoch = some e) (htx : c.txed = true) (hout : s.out = some c.msg) (hid : c.msg.seqno = c.id)
     (hack : s.outAcked = true) :
     (sendStep s c.id).out = none ∧ ∃ c', getSend (sendStep s c.id) c.id = some c' ∧ c'.result = some true := by
-  sorry
+  obtain ⟨cid, cmsg, ctx, cep, cres⟩ := c
+  obtain ⟨open_, out, outSent, outAcked, outCancel, recv, recvProcessed, sends, delivered, emitted,
+    accepted, ackedLog, failed⟩ := s
+  simp only at hrun ho hout hc hep htx hid hack
+  subst hrun ho hout hep htx hack
+  simp only [SigClient.getSend_def] at hc
+  simp [sendStep, hc, hid, SigClient.getSend_def, SigClient.setSend_def, SigClient.findL_setL]
 
 /-- F11: a re-open while the send is in flight keeps the send alive: after `Opened e'` the
 message is still pending, marked untransmitted, the `Send` call keeps waiting for ITS ack, and
@@ -49,6 +63,13 @@ theorem reopen_keeps_send (s : State) (c : SendCall) (e e' : Nat)
     let s2 := sendStep s1 c.id
     (∃ c', getSend s2 c.id = some c' ∧ c'.txed = true ∧ c'.result = none) ∧ s2.out = some c.msg ∧
     (txLoop s2).2 = some (.send e' c.msg) := by
-  sorry
+  obtain ⟨cid, cmsg, ctx, cep, cres⟩ := c
+  obtain ⟨open_, out, outSent, outAcked, outCancel, recv, recvProcessed, sends, delivered, emitted,
+    accepted, ackedLog, failed⟩ := s
+  simp only at hrun ho hout hc htx hid hnc
+  subst hrun ho hout htx hnc
+  simp only [SigClient.getSend_def] at hc
+  by_cases hep : cep = some e' <;>
+    simp [opened, hne, sendStep, hc, hid, hep, SigClient.getSend_def, SigClient.setSend_def, SigClient.findL_setL, txLoop]
 
 end Bifrost.Props.C23
